@@ -73,6 +73,14 @@ def gen_cases(tier, seed):
         if k % 8 in (0, 6):
             case["history"] = ["used", "used_moved"][(k // 8) % 2]  # the Device object was solved before with other options
         cases.append(case)
+    for j in range(2 if tier == "quick" else 8):
+        # terminals held at a non-zero value, proposals not clipped at dt_max: delta is the change of |psi|^2 of the state that
+        # update() RETURNS (terminal sites re-imposed), not of an intermediate
+        dev = zoo.gen_device(rng, n_terminals=2, n_holes=0, probes=int([0, 2][j % 2]), size="small", gamma=float([10.0, 1.0][j % 2]))
+        o = dict(adaptive=True, adaptive_window=int([5, 2][j % 2]), adaptive_time_step_multiplier=0.25, max_solve_retries=10, dt_init=1e-3, dt_max=0.5, solve_time=6.0,
+                 save_every=10, field_units="mT", current_units="uA", output="file", terminal_psi=[0.5, [0.3, 0.4], -0.7, 1.0][j % 4])
+        drive = {"A": S.field_spec(rng, dev, o, "uniform", b=0.3), "currents": S.current_spec(rng, dev, o, "const", strength=0.3)}
+        cases.append({"device": dev, "options": o, "drive": drive, "monitors": ["adaptive"], "kind": "pinned_nonzero", "cost": 8})
     return cases
 
 
